@@ -440,6 +440,65 @@ fn params(m: &Model, ctx: &mut Ctx) {
     }
 }
 
+/// C09.params (expansion): "an instantiation of a parameterized type … produces the same bindings as the expanded notation
+/// written out by hand". The hand expansion of `Inst ::= Pt {BOOLEAN}` with `Pt {T} ::= SEQUENCE { a T, b Other }` is
+/// `SEQUENCE { a BOOLEAN, b Other }`: the dummy reference is replaced, every other reference stays a reference. The
+/// substitution step (`ASN1Type::link_elsewhere_declared`, run on the template with the scope map) is evaluated on that
+/// template: `a` becomes BOOLEAN, `b` is still the reference `Other`.
+pub fn template_expansion(m: &Model, ctx: &mut Ctx, rule: &str) {
+    use crate::eval::{Env, Evaluator, Val};
+    use std::collections::BTreeMap as Map;
+    let Some(f) = m.fns.iter().find(|f| f.name == "link_elsewhere_declared" && f.self_ty.as_deref() == Some("ASN1Type")) else {
+        ctx.fail_closed(rule, "anchor not found: ASN1Type::link_elsewhere_declared");
+        return;
+    };
+    ctx.func(&f.key);
+    ctx.oblige(rule, "expansion:only-dummy-references-are-replaced", true);
+    let consts = const_resolver(m);
+    let params: Vec<String> = f.sig.inputs.iter().filter_map(|a| match a { syn::FnArg::Typed(t) => Some(tok(&t.pat)), _ => None }).collect();
+    let mut inl: Map<String, (Vec<String>, syn::Block)> = Map::new();
+    inl.insert(".link_elsewhere_declared".into(), (params.clone(), f.block.clone()));
+    let ev = Evaluator { consts: &consts, call_hook: &crate::eval::no_hook, inline: Some(&inl) };
+    let named = |n: &str, fields: Vec<(&str, Val)>| Val::Ctor(n.to_string(), vec![], fields.into_iter().map(|(k, v)| (k.to_string(), v)).collect::<Map<_, _>>());
+    let reference = |to: &str| Val::Ctor("ElsewhereDeclaredType".into(), vec![named("DeclarationElsewhere", vec![("identifier", Val::Str(to.into())), ("module", Val::none()), ("parent", Val::none()), ("constraints", Val::List(vec![]))])], Map::new());
+    let member = |n: &str, ty: Val| named("SequenceOrSetMember", vec![("name", Val::Str(n.into())), ("ty", ty), ("is_recursive", Val::Bool(false)), ("optionality", Val::ctor("Required")), ("tag", Val::none()), ("constraints", Val::List(vec![]))]);
+    let template = Val::Ctor("Sequence".into(), vec![named("SequenceOrSet", vec![("members", Val::List(vec![member("a", reference("T")), member("b", reference("Other"))])), ("extensible", Val::none()), ("constraints", Val::List(vec![]))])], Map::new());
+    let tld = |n: &str, ty: Val| Val::Ctor("Type".into(), vec![named("ToplevelTypeDefinition", vec![("name", Val::Str(n.into())), ("ty", ty), ("parameterization", Val::none())])], Map::new());
+    let mut tlds = crate::eval::new_map();
+    tlds = crate::eval::map_insert(tlds, Val::Str("T".into()), tld("T", Val::Ctor("Boolean".into(), vec![Val::Sym("<BOOLEAN>".into())], Map::new())));
+    tlds = crate::eval::map_insert(tlds, Val::Str("Other".into()), tld("Other", Val::Ctor("Integer".into(), vec![Val::Sym("<INTEGER (0..7)>".into())], Map::new())));
+    let mut env = Env::new();
+    env.insert("self".into(), template);
+    env.insert(params.first().cloned().unwrap_or("tlds".into()), tlds);
+    match ev.eval_fn_body(&f.block, &mut env) {
+        Ok(Val::Ctor(ok, _, _)) if ok == "Ok" => {
+            let kinds: Vec<String> = match env.get("self") {
+                Some(Val::Ctor(_, p, _)) => match p.first() {
+                    Some(Val::Ctor(_, _, fl)) => match fl.get("members") {
+                        Some(Val::List(ms)) => ms.iter().map(|mm| match mm { Val::Ctor(_, _, mf) => match mf.get("ty") { Some(Val::Ctor(k, _, _)) => k.clone(), o => format!("{:?}", o.map(|v| v.show())) }, o => o.show() }).collect(),
+                        _ => vec![],
+                    },
+                    _ => vec![],
+                },
+                _ => vec![],
+            };
+            if kinds.len() != 2 {
+                ctx.fail_closed(rule, &format!("template members after the substitution: {:?}", kinds));
+            } else {
+                if kinds[0] != "Boolean" {
+                    ctx.violate(rule, "expansion:dummy-reference-not-replaced", &f.file, f.line, &format!("`Pt {{T}} ::= SEQUENCE {{ a T, b Other }}` instantiated with BOOLEAN: component `a` is {} after the substitution, the actual parameter is BOOLEAN", kinds[0]));
+                }
+                if kinds[1] != "ElsewhereDeclaredType" {
+                    ctx.violate(rule, "expansion:other-references-inlined", &f.file, f.line,
+                        &format!("`Pt {{T}} ::= SEQUENCE {{ a T, b Other }}  Other ::= INTEGER (0..7)  Inst ::= Pt {{BOOLEAN}}`: the substitution step replaces *every* type reference of the template by the referenced definition, not only the dummy reference — component `b` becomes {} (bindings `#[rasn(value(\"0..=7\"))] pub b: u8`), while the hand-expanded `SEQUENCE {{ a BOOLEAN, b Other }}` gives `pub b: Other`; a `c SEQUENCE OF Other` becomes a hoisted `InstC` instead of `SequenceOf<Other>`", kinds[1]));
+                }
+            }
+        }
+        Ok(o) => ctx.fail_closed(rule, &format!("link_elsewhere_declared on the template: {}", o.show().chars().take(100).collect::<String>())),
+        Err(e) => ctx.fail_closed(rule, &format!("link_elsewhere_declared on the template: {}", e)),
+    }
+}
+
 /// C09.traverse: "at any depth". The expansions of C09 (COMPONENTS OF, selection types, class-field references, constraint
 /// references, DEFAULT linking) are found by recursive traversals of `ASN1Type`. A component can sit below five kinds of
 /// container — SEQUENCE, SET, CHOICE, SEQUENCE OF, SET OF — so every traversal (a method of `ASN1Type` whose `match self`
@@ -902,6 +961,7 @@ C09.order:phase: values are linked in a later pass over the definitions than the
     // every endpoint of a range that is a reference is handed to the linker (open-ended ranges included): decided under C04.refs
     borrow(ctx, "C04", "C04.refs", "C09.refs", &mut |sub| crate::rules::c04::run(m, sub));
     traverse(m, ctx, "C09.traverse");
+    template_expansion(m, ctx, "C09.params");
     value_chain(m, ctx, "C09.scope");
     detectors(m, ctx, "C09.detect");
     short_circuit(m, ctx, "C09.shortcircuit");
